@@ -123,18 +123,18 @@ Theorem context_list_spec (gs : list its) k :
 Proof. unfold context_list. split; [apply map_length|]. intros i. apply nth_error_map. Qed.
 
 (** * ITSGraph(ignore_aromaticity, balance_its) *)
-Theorem its_construct_o_default G H : its_construct_o false false G H = its_construct G H.
+Theorem its_construct_o_default G H : its_construct_ab false false G H = its_construct G H.
 Proof. reflexivity. Qed.
 
-Theorem its_construct_ia_consistent bal G H : ia_consistent (its_construct_o true bal G H).
+Theorem its_construct_ia_consistent bal G H : ia_consistent (its_construct_ab true bal G H).
 Proof.
-  intros u v x I. unfold its_construct_o in I. simpl in I. apply in_app_iff in I.
+  intros u v x I. unfold its_construct_ab in I. simpl in I. apply in_app_iff in I.
   destruct I as [I|I]; apply in_map_iff in I; destruct I as ([[a b] o] & E & _); inversion E; subst; reflexivity.
 Qed.
 
-Theorem its_construct_noia_consistent bal G H : std_consistent (its_construct_o false bal G H).
+Theorem its_construct_noia_consistent bal G H : std_consistent (its_construct_ab false bal G H).
 Proof.
-  intros u v x I. unfold its_construct_o in I. simpl in I. apply in_app_iff in I.
+  intros u v x I. unfold its_construct_ab in I. simpl in I. apply in_app_iff in I.
   destruct I as [I|I]; apply in_map_iff in I; destruct I as ([[a b] o] & E & _); inversion E; subst; reflexivity.
 Qed.
 
@@ -160,7 +160,7 @@ Qed.
 (** there "order differs => in the centre" fails: an aromatic bond (1.5) that becomes single (1.0) *)
 Definition ia_G : mgraph := LG [(1%N, GN 70%N true 1 0 None 1); (2%N, GN 70%N true 1 0 None 2)] [(1%N, 2%N, 3)].
 Definition ia_H : mgraph := LG [(1%N, GN 70%N false 2 0 None 1); (2%N, GN 70%N false 2 0 None 2)] [(1%N, 2%N, 2)].
-Definition ia_its : its := its_construct_o true false ia_G ia_H.
+Definition ia_its : its := its_construct_ab true false ia_G ia_H.
 
 Lemma ia_its_wf : wf ia_its.
 Proof.
@@ -248,7 +248,7 @@ Qed.
 Definition ia_G2 : mgraph := LG (gnodes ia_G ++ [(3%N, GN 82%N false 0 0 None 3)]) [(1%N, 2%N, 3); (2%N, 3%N, 4)].
 Definition ia_H2 : mgraph := LG (gnodes ia_H ++ [(3%N, GN 82%N false 1 0 None 3)]) [(1%N, 2%N, 2); (2%N, 3%N, 2)].
 Example C02_ia_nonvacuous :
-  ia_consistent (its_construct_o true true ia_G2 ia_H2) /\
-  map fst (gnodes (get_rc (its_construct_o true true ia_G2 ia_H2))) = [2; 3]%N /\
-  map fst (gnodes (get_rc (its_construct_o false true ia_G2 ia_H2))) = [1; 2; 3]%N.
+  ia_consistent (its_construct_ab true true ia_G2 ia_H2) /\
+  map fst (gnodes (get_rc (its_construct_ab true true ia_G2 ia_H2))) = [2; 3]%N /\
+  map fst (gnodes (get_rc (its_construct_ab false true ia_G2 ia_H2))) = [1; 2; 3]%N.
 Proof. split; [apply its_construct_ia_consistent|]. vm_compute. split; reflexivity. Qed.
